@@ -596,19 +596,33 @@ def c19_r7(ctx):
     start = ctx.repo.func('hotspot', 'analyze')
     tainted = {}          # function full name -> set of local names
 
+    def holds(expr):
+        """expr is the fresh result of _get_peak_dt, a view of it, or a
+        dictionary / conditional expression of such results."""
+        x = expr
+        while isinstance(x, ast.Subscript):
+            x = x.value
+        if isinstance(x, ast.Call) and call_name(x) == '_get_peak_dt':
+            return True
+        if isinstance(x, ast.DictComp):
+            return holds(x.value)
+        if isinstance(x, ast.IfExp):
+            return holds(x.body) or holds(x.orelse)
+        return False
+
     def taint_of(fi, expr, names):
         """Is expr the array / a view of it?"""
         x = expr
         while isinstance(x, ast.Subscript):
             x = x.value
-        return isinstance(x, ast.Name) and x.id in names
+        return (isinstance(x, ast.Name) and x.id in names) or (
+            fi is start and holds(expr))
 
     work = []
     seeds = {a.targets[0].id for a in ast.walk(start.node)
              if isinstance(a, ast.Assign) and len(a.targets) == 1
              and isinstance(a.targets[0], ast.Name)
-             and isinstance(a.value, ast.Call)
-             and call_name(a.value) == '_get_peak_dt'}
+             and holds(a.value)}
     if not seeds:
         raise AnalysisError('hotspot.analyze: _get_peak_dt result')
     tainted[start.qual] = set(seeds)
